@@ -102,6 +102,24 @@ def from_condition(c, pol):
     return [[lt(x, y)], [lt(y, x)]]
 
 
+def literal_constraints(c, pol):
+    """a path-condition literal as constraints: a comparison, or the truthiness of an integer term (non-zero / zero);
+    only conjunctive literals (no `!=`) -> list of Lin, else NotLinear"""
+    a = c.single_atom() if isinstance(c, Poly) else None
+    if a is not None and a[0] == 'app' and a[1] in ('lt', 'le', 'eq', 'ne'):
+        alts = from_condition(c, pol)
+    elif isinstance(c, Poly):
+        x = linearise(c)
+        if pol:
+            raise NotLinear('non-zero test is a disjunction')
+        alts = [[le(x, Lin()), le(Lin(), x)]]
+    else:
+        raise NotLinear('not an integer term')
+    if len(alts) != 1:
+        raise NotLinear('disjunction')
+    return alts[0]
+
+
 def _eliminate(cons, v):
     pos, neg, rest = [], [], []
     for l in cons:
